@@ -335,17 +335,159 @@ def generate(repo):
     pure_v = '\n'.join(pure) + '\n'
     return consts_v, pure_v, {'consts': {r[0]: r[1] for r in rows}, 'layout': layout}
 
+# ---------------------------------------------------------------------------------------------------
+# Structural facts: the hand-written models of the fault / cancellation / lock-protocol layers assume a
+# few ORDERINGS inside specific functions (what is done before what, which call may suspend, whether an
+# error is propagated or logged). They are re-extracted on every run; each is a boolean in
+# Generated/Facts.v, and the property files state `fact = true` by reflexivity, so that a change of the
+# code that invalidates an assumption breaks a proof obligation of the properties that rely on it.
+# The analysis is deliberately shallow (ordered substring search inside one function body, comments
+# stripped): a refactoring can defeat it, which is then reported as a broken tie, not as a violation.
+def fn_bodies(src, name):
+    out = []
+    for m in re.finditer(r'fn\s+' + re.escape(name) + r'\s*(?:<[^>]*>)?\s*\(', src):
+        k = src.find('{', m.end())
+        # skip to the body brace of THIS function (the parameter list and return type contain no '{')
+        i = k + 1
+        depth = 1
+        j = i
+        while depth > 0 and j < len(src):
+            if src[j] == '{': depth += 1
+            elif src[j] == '}': depth -= 1
+            j += 1
+        out.append(src[i:j - 1])
+    return out
+
+def body_with(src, name, must_contain):
+    for b in fn_bodies(src, name):
+        if all(x in b for x in must_contain):
+            return b
+    raise TranslateError('function %s containing %s not found' % (name, must_contain))
+
+def pos(body, needle, what):
+    i = body.find(needle)
+    if i < 0:
+        raise TranslateError('%s: `%s` not found' % (what, needle))
+    return i
+
+def before(body, a, b, what):
+    return pos(body, a, what) < pos(body, b, what)
+
+def no_await_between(body, a, b, what):
+    i = pos(body, a, what); j = body.find(b, i)
+    if j < 0:
+        raise TranslateError('%s: `%s` not found after `%s`' % (what, b, a))
+    return '.await' not in body[i + len(a):j]
+
+class Lazy(str):
+    """a function body fetched on first use (so that a missing function only fails the facts that need it)"""
+    def __new__(cls, thunk):
+        o = str.__new__(cls, '')
+        o._thunk = thunk; o._val = None
+        return o
+    def _get(self):
+        if self._val is None:
+            self._val = self._thunk()
+        return self._val
+    def find(self, *a): return self._get().find(*a)
+    def count(self, *a): return self._get().count(*a)
+    def __contains__(self, x): return x in self._get()
+    def __getitem__(self, k): return self._get()[k]
+    def __str__(self): return self._get()
+
+
+def generate_facts(repo):
+    S = lambda rel: strip_comments(read(repo, rel)).replace('\r', '')
+    facts = []
+    def F(name, value, where, meaning):
+        # value is a thunk: a function that can no longer be analysed makes its fact false (only the properties
+        # that state the fact are affected), it does not stop the translator
+        try:
+            v = bool(value())
+        except TranslateError as e:
+            v = False
+            meaning = meaning + ' [NOT RECOGNISED: %s]' % e
+        facts.append((name, v, where, meaning))
+    obs = S('src/storage/observer.rs')
+    def hints():
+        ok = True
+        for fn in ('try_update_active_blob', 'try_fsync_data', 'defer_dump_old_blob_indexes'):
+            b = body_with(obs, fn, ['Msg::new'])
+            ok = ok and ('send_hint(' in b) and ('send_msg(' not in b)
+        sh = body_with(obs, 'send_hint', ['sender'])
+        return ok and ('try_send(' in sh) and ('.await' not in sh)
+    F('HINTS_NEVER_WAIT', lambda: (hints()), 'src/storage/observer.rs',
+      'the three requests sent by write/delete under the storage lock use try_send and never suspend')
+    core = S('src/storage/core.rs')
+    w = Lazy(lambda: body_with(core, 'write_with_optional_meta', ['contains_with']))
+    F('WRITE_DUPCHECK_BEFORE_LOCK', lambda: (before(w, 'contains_with(', '.safe.read().await', 'write_with_optional_meta')), 'src/storage/core.rs',
+      'write: the duplicate check (which takes the storage lock itself) runs before the write takes the lock')
+    c = Lazy(lambda: body_with(core, 'close_active_blob', ['active_blob.take()']))
+    F('CLOSE_SYNCS_BEFORE_TAKE', lambda: (before(c, 'fsyncdata()', 'active_blob.take()', 'close_active_blob') and
+      no_await_between(c, 'active_blob.take()', '.push(', 'close_active_blob')), 'src/storage/core.rs',
+      'close_active_blob: the blob is synced while still active; no suspension between taking it out and pushing it')
+    r = Lazy(lambda: body_with(core, 'restore_active_blob', ['.pop()']))
+    F('RESTORE_LOADS_BEFORE_POP', lambda: (before(r, 'load_index()', '.pop()', 'restore_active_blob') and
+      no_await_between(r, '.pop()', 'active_blob = Some(', 'restore_active_blob')), 'src/storage/core.rs',
+      'restore_active_blob: the index is loaded before the blob leaves the closed blobs; no suspension between pop and install')
+    fs = Lazy(lambda: body_with(core, 'fsyncdata', ['fsync_in_progress']))
+    F('FSYNC_FLAG_IS_A_GUARD', lambda: ('let _flag = ResetableFlag' in fs and 'fsync_in_progress.store(false' not in fs), 'src/storage/core.rs',
+      'Inner::fsyncdata: the in-progress flag is reset by a drop guard on every exit path')
+    ow = S('src/storage/observer_worker.rs')
+    pm = Lazy(lambda: body_with(ow, 'process_msg', ['OperationType::CloseActiveBlob']))
+    logged = all(re.search(x + r'\s*\.await\s*\?', str(pm)) is None for x in
+                 (r'close_active_blob\(\)', r'create_active_blob\(\)', r'restore_active_blob\(\)', r'update_active_blob\(&self\.inner\)', r'try_update_active_blob\(\)'))
+    F('BACKGROUND_FAILURES_ARE_LOGGED', lambda: (logged), 'src/storage/observer_worker.rs',
+      'process_msg: a failing background close/create/restore/update request does not propagate to the worker loop')
+    idx = S('src/blob/index/core.rs')
+    d = Lazy(lambda: body_with(idx, 'dump_in_memory', ['mem::take']))
+    F('DUMP_PUTS_HEADERS_BACK', lambda: (('impl' in d and 'Drop for' in d and 'data.take()' in d) and before(d, 'from_records(', 'taken.data = None', 'dump_in_memory')), 'src/blob/index/core.rs',
+      'dump_in_memory: the headers taken out of the index go back unless the file was written')
+    sy = S('src/io/unix/sync.rs')
+    a = Lazy(lambda: body_with(sy, 'write_append_writable_data', ['fetch_add']))
+    F('APPEND_RESERVES_THEN_WRITES', lambda: (before(a, 'size.fetch_add(', 'write_data(', 'write_append_writable_data') and
+      a.count('resync_size_after_failed_append(') == a.count('write_data(')), 'src/io/unix/sync.rs',
+      'record append: the offset is reserved before the write, and after a failed write the size falls back to the file length')
+    fd = Lazy(lambda: body_with(sy, 'fsyncdata', ['sync_all']))
+    F('SYNCED_SIZE_CAPTURED_BEFORE_SYNC', lambda: (before(fd, 'self.size()', 'sync_all()', 'File::fsyncdata') and 'synced_size.fetch_max(size' in fd), 'src/io/unix/sync.rs',
+      'File::fsyncdata: the size recorded as synced is the one read before the sync started')
+    bc = S('src/blob/core.rs')
+    rc = Lazy(lambda: body_with(bc, 'read_current_record', ['meta_size']))
+    F('SCAN_CHECKS_RECORD_END', lambda: (before(rc, '+= header.meta_size()', '> self.file.size()', 'read_current_record') and
+      before(rc, '> self.file.size()', 'if read_data', 'read_current_record') and 'saturating_add(header.data_size())' in rc), 'src/blob/core.rs',
+      'blob scan: after the meta size is added the whole record must end inside the file, checked before the data is (or is not) read')
+    bp = S('src/blob/index/bptree/core.rs')
+    v = Lazy(lambda: body_with(bp, 'validate', ['blob_size']))
+    F('INDEX_BLOB_SIZE_MUST_BE_EQUAL', lambda: (re.search(r'self\.header\.blob_size\(\)\s*!=\s*blob_size', str(v)) is not None), 'src/blob/index/bptree/core.rs',
+      'index validation: the recorded blob size must EQUAL the blob file size')
+    ff = Lazy(lambda: body_with(bp, 'from_file', ['read_tree_meta']))
+    F('INDEX_LENGTH_IS_CHECKED', lambda: (before(ff, 'read_tree_meta(', 'file.size() < expected_size', 'from_file') and
+      before(ff, 'file.size() < expected_size', 'read_root(', 'from_file') and 'leaves_offset.saturating_add(' in ff), 'src/blob/index/bptree/core.rs',
+      'index open: the file must reach leaves_offset + records_count * record_header_size before anything is read from the tree')
+    st = S('src/storage/core.rs')
+    ie = Lazy(lambda: body_with(st, 'init_from_existing', ['read_blobs']))
+    F('QUARANTINED_IDS_COUNT_FOR_NEXT_ID', lambda: ('max_blob_id.max(max_corrupted_id)' in ie and 'fetch_max(' in ie), 'src/storage/core.rs',
+      'init: next_blob_id is above the ids of the blobs in the corrupted directory and is never lowered afterwards')
+    out = ['(* GENERATED by tools/extract_src.py from /repo/src -- do not edit *)',
+           '(* structural facts about the code that the hand-written fault / cancellation / protocol models assume *)', '']
+    for name, val, where, meaning in facts:
+        out.append('(* %s: %s *)' % (where, meaning))
+        out.append('Definition %s : bool := %s.' % (name, 'true' if val else 'false'))
+    return '\n'.join(out) + '\n', {n: v for n, v, _, _ in facts}
+
 def main():
     repo = sys.argv[1] if len(sys.argv) > 1 else '/repo'
     outdir = sys.argv[2] if len(sys.argv) > 2 else os.path.join(os.path.dirname(__file__), '..', 'coq', 'theories', 'Generated')
     try:
         consts_v, pure_v, info = generate(repo)
+        facts_v, facts = generate_facts(repo)
+        info['facts'] = facts
     except TranslateError as e:
         print('TRANSLATE-ERROR: %s' % e)
         sys.exit(2)
     os.makedirs(outdir, exist_ok=True)
     changed = False
-    for fn, content in (('Consts.v', consts_v), ('Pure.v', pure_v)):
+    for fn, content in (('Consts.v', consts_v), ('Pure.v', pure_v), ('Facts.v', facts_v)):
         p = os.path.join(outdir, fn)
         old = open(p).read() if os.path.exists(p) else None
         if old != content:
